@@ -17,6 +17,10 @@ from . import build
 VERIF = build.VERIF
 EVIDENCE = os.path.join(VERIF, 'evidence')
 REPLAYS = os.path.join(VERIF, 'replays')
+if build.REPO != '/repo':
+    # sensitivity experiments against a scratch copy of the repository must not overwrite the real evidence
+    EVIDENCE = os.path.join(build.BUILD, 'evidence')
+    REPLAYS = os.path.join(build.BUILD, 'replays')
 CORPUS = os.path.join(VERIF, 'corpus')
 KNOWN = os.path.join(VERIF, 'known_findings.txt')
 NCPU = min(16, os.cpu_count() or 1)
